@@ -43,11 +43,57 @@ def gen_case(rng, kinds=("expr", "stmt", "inherit", "incimp", "loop"), stmt_opts
         body = c07.loop_ast(sc, rng.choice([None, "odd", "gt"]), rng.random() < 0.5)
         data = {"seq": [rng.randint(0, 9) for _ in range(rng.randint(0, 5))], "k": rng.randint(0, 9)}
         return {"kind": k, "asts": {"main": body}, "main": "main", "data": data, "globals": {}}
+    if k == "afilter":
+        return afilter_case(rng)
     if k == "incimp":
         g = tplgen.IGen(rng)
         templates, data, glob = g.tset()
         return {"kind": k, "asts": templates, "main": "main", "data": data, "globals": glob}
     raise ValueError(k)
+
+
+def afilter_case(rng):
+    """Programs over the filters that have an async variant, with generated arguments."""
+    C = lambda v: ["const", v]
+    N = lambda n: ["name", n]
+    F = lambda e, n, a=(), kw=(): ["filter", e, n, list(a), [list(x) for x in kw]]
+    pick = lambda xs: xs[rng.randrange(len(xs))]
+    recs = []
+    for i in range(rng.randint(0, 5)):
+        r = {"id": i}
+        if rng.random() < 0.7:
+            r["a"] = pick([1, 2, "x", "X", "y", None])
+        if rng.random() < 0.6:
+            r["b"] = {"c": pick([0, 1, 2])}
+        recs.append(r)
+    data = {"recs": recs, "nums": [rng.randint(0, 6) for _ in range(rng.randint(0, 6))],
+            "words": [pick(["a", "A", "b", "B", "c"]) for _ in range(rng.randint(0, 5))]}
+    dflt = [["default", C(pick(["D", 9, "x"]))]] if rng.random() < 0.6 else []
+    cs = [["case_sensitive", C(True)]] if rng.random() < 0.3 else []
+    attr = pick(["a", "b.c", "id"])
+    exprs = [
+        F(F(N("recs"), "map", (), [["attribute", C(attr)]] + dflt), "list"),
+        F(F(N("recs"), "groupby", [C(attr)], dflt + cs), "list"),
+        F(F(N("nums"), pick(["select", "reject"]), [C(pick(["odd", "even"]))]), "list"),
+        F(F(N("nums"), pick(["select", "reject"]), [C("gt"), C(rng.randint(0, 5))]), "list"),
+        F(F(N("words"), "unique", (), cs), "list"), F(N("nums"), "sum", (), [["start", C(rng.randint(0, 3))]]),
+        F(F(N("recs"), "sum", (), [["attribute", C("id")]]), "string"),
+        F(F(N("nums"), "slice", [C(rng.randint(1, 3))] + ([C("F")] if rng.random() < .5 else [])), "list"),
+        F(N("nums"), "first"), F(N("words"), "join", [C(pick([",", "", "-"]))]),
+        F(F(N("recs"), "join", [C("|")], [["attribute", C("id")]]), "string"),
+        F(F(F(N("recs"), pick(["selectattr", "rejectattr"]), [C("a")]), "list"), "length"),
+        F(F(F(N("recs"), pick(["selectattr", "rejectattr"]), [C("a"), C("none")]), "list"), "length"),
+        F(F(F(N("recs"), "selectattr", [C("id"), C("ge"), C(rng.randint(0, 3))]), "map", (), [["attribute", C("id")]]), "list"),
+        F(F(N("words"), "map", [C("upper")]), "list"), F(N("nums"), "list"),
+    ]
+    body = []
+    for i in range(rng.randint(2, 5)):
+        body += [["text", f"[f{i}:"], ["out", pick(exprs)], ["text", "]"]]
+    if rng.random() < 0.5:
+        g = ["filter", N("recs"), "groupby", [C(attr)], dflt + cs]
+        body += [["for", ["gk", "gitems"], g,
+                  [["out", N("gk")], ["text", "="], ["out", F(N("gitems"), "length")], ["text", ";"]], [["text", "none"]], None, False]]
+    return {"kind": "afilter", "asts": {"main": body}, "main": "main", "data": data, "globals": {}}
 
 
 def sources(case, sx=jast.DEFAULT):
